@@ -119,6 +119,8 @@ type prog struct {
 
 	chainOdds int // per cent of the steps on a live contract whose block is a same-contract chain (see drawChain)
 
+	buildLoc *time.Location // host time zone of the node that builds the blocks (the copies); the main replica = second node has its own
+
 	ctxAddrs   []common.Address // addresses with a role in the step being generated: the target contract itself (for a deployment: its future address)
 	selfPicked bool             // an address argument of the step being generated is the target contract itself
 }
@@ -692,9 +694,43 @@ func (p *prog) deploy() *opSpec {
 
 // ---- smart steps per contract type ----
 
+// dust: what a TimeLock / Multisig may still hold when it is terminated (100 x gas price; the termination burns it).
+func (p *prog) dust() *big.Int { return new(big.Int).Mul(p.fpg(), big.NewInt(100)) }
+
+// holdsDust: 0 < balance <= dust.
+func (p *prog) holdsDust(c *contract) bool {
+	bal := p.balance(c.addr)
+	return bal.Sign() > 0 && bal.Cmp(p.dust()) <= 0
+}
+
+// transferAmounts: amounts a wallet contract is asked to pay out - everything, half, 1, 0, one more than it holds, and
+// the boundary of the termination rule: everything but the dust limit / but one wei (the wallet then still holds dust).
 func (p *prog) transferAmounts(c *contract) []*big.Int {
 	bal := p.balance(c.addr)
-	return []*big.Int{bal, new(big.Int).Quo(bal, big.NewInt(2)), big.NewInt(1), big.NewInt(0), new(big.Int).Add(bal, big.NewInt(1))}
+	res := []*big.Int{bal, new(big.Int).Quo(bal, big.NewInt(2)), big.NewInt(1), big.NewInt(0), new(big.Int).Add(bal, big.NewInt(1))}
+	if d := p.dust(); bal.Cmp(d) > 0 && d.Sign() > 0 {
+		res = append(res, new(big.Int).Sub(bal, d), new(big.Int).Sub(bal, big.NewInt(1)))
+	}
+	return res
+}
+
+// leaveDust: a payout that leaves the wallet with 0 < rest <= dust (exactly the limit, one wei, or in between).
+func (p *prog) leaveDust(c *contract, label string) *big.Int {
+	bal, d := p.balance(c.addr), p.dust()
+	if d.Sign() == 0 || bal.Cmp(d) <= 0 {
+		return bal
+	}
+	rest := new(big.Int).Set(d)
+	switch p.draw(label, 3) {
+	case 1:
+		rest = big.NewInt(1)
+	case 2:
+		rest = new(big.Int).Mul(d, big.NewInt(int64(1+p.draw(label+"Part", 4095))))
+		if rest.Quo(rest, big.NewInt(4096)).Sign() == 0 {
+			rest = big.NewInt(1)
+		}
+	}
+	return new(big.Int).Sub(bal, rest)
 }
 
 func (p *prog) smartTimeLock(c *contract) *opSpec {
@@ -703,7 +739,11 @@ func (p *prog) smartTimeLock(c *contract) *opSpec {
 	if int64(ts) > p.now() && ts < uint64(p.now())+100000 && p.chance("tlWait", 40) {
 		return &opSpec{special: "time", dur: time.Duration(int64(ts)-p.now()+1) * time.Second}
 	}
-	switch rapid.IntRange(0, 9).Draw(p.t, "tlStep") {
+	step := rapid.IntRange(0, 9).Draw(p.t, "tlStep")
+	if p.holdsDust(c) && step < 7 && p.chance("tlTerminateDust", 60) {
+		step = 7 // the wallet holds nothing but dust: time to close it (the termination burns the dust)
+	}
+	switch step {
 	case 0, 1:
 		if bal.Sign() == 0 || p.chance("tlFund", 30) {
 			return p.mkFund(c, sim.Dna(int64(rapid.IntRange(1, 100).Draw(p.t, "tlFundDna"))))
@@ -722,10 +762,18 @@ func (p *prog) smartTimeLock(c *contract) *opSpec {
 		}
 		return op
 	case 6:
-		// drain everything so that a termination can pass the dust check
-		return p.mkCall(c, c.owner, "transfer", big.NewInt(0), [][]byte{c.owner.Addr.Bytes(), bal.Bytes()}, "typed", true)
+		// drain everything - or everything but some dust - so that a termination can pass the dust check
+		amount := bal
+		if p.chance("tlLeaveDust", 50) {
+			amount = p.leaveDust(c, "tlDustRest")
+		}
+		return p.mkCall(c, c.owner, "transfer", big.NewInt(0), [][]byte{c.owner.Addr.Bytes(), amount.Bytes()}, "typed", true)
 	default:
-		args, cls := p.mangle([][]byte{p.anyAddr("tlTermDest")}, "tlTermArgs")
+		dest := p.anyAddr("tlTermDest")
+		if p.chance("tlTermDestSelf", 20) {
+			dest, p.selfPicked = c.addr.Bytes(), true // the refunded half of the stake goes to the contract that is being dropped
+		}
+		args, cls := p.mangle([][]byte{dest}, "tlTermArgs")
 		return p.mkTerminate(c, p.ownerOr(c, "tlTermSender"), p.payAmount("tlTermPay", c.owner), args, cls, true)
 	}
 }
@@ -733,8 +781,16 @@ func (p *prog) smartTimeLock(c *contract) *opSpec {
 func (p *prog) smartMultisig(c *contract) *opSpec {
 	st := p.cbyte(c, "state")
 	bal := p.balance(c.addr)
-	if dust := new(big.Int).Mul(p.fpg(), big.NewInt(100)); bal.Cmp(dust) <= 0 && p.chance("msTerminateEmpty", 10) {
-		args, cls := p.mangle([][]byte{p.anyAddr("msTermDest")}, "msTermArgs")
+	termOdds := 10
+	if p.holdsDust(c) {
+		termOdds = 45 // nothing but dust left: time to close it (the termination burns the dust)
+	}
+	if bal.Cmp(p.dust()) <= 0 && p.chance("msTerminateEmpty", termOdds) {
+		dest := p.anyAddr("msTermDest")
+		if p.chance("msTermDestSelf", 20) {
+			dest, p.selfPicked = c.addr.Bytes(), true
+		}
+		args, cls := p.mangle([][]byte{dest}, "msTermArgs")
 		return p.mkTerminate(c, p.ownerOr(c, "msTermSender"), p.payAmount("msTermPay", c.owner), args, cls, true)
 	}
 	if st == 1 && p.chance("msAdd", 70) {
